@@ -262,6 +262,11 @@ func (encryptor *HashQuery) replaceValuesWithHMACs(ctx context.Context, values [
 }
 
 func (encryptor *HashQuery) calculateHmac(ctx context.Context, data []byte) ([]byte, error) {
+	if len(data) == 0 {
+		// an empty value is stored as it is, without encryption and without a hash:
+		// it is found by comparing the (empty) prefix of the column with the empty value
+		return data, nil
+	}
 	accessContext := base.AccessContextFromContext(ctx)
 	if !encryptor.decryptor.MatchDataSignature(data) {
 		key, err := encryptor.keystore.GetHMACSecretKey(accessContext.GetClientID())
